@@ -23,6 +23,8 @@ func main() {
 	fs := flag.NewFlagSet(os.Args[1], flag.ExitOnError)
 	repo := fs.String("repo", "/repo", "repository under test (for the source facts and the sample files)")
 	out := fs.String("out", "", "facts: path of the generated .v file")
+	reachOut := fs.String("reach", "", "facts: path of the generated reachability .v file")
+	aliasOut := fs.String("alias", "", "facts: path of the generated aliasing .v file")
 	seed := fs.Uint64("seed", 0, "seed")
 	n := fs.Int("n", 100, "number of cases / rounds")
 	known := fs.Int("known", 0, "search: number of additional rounds of the recorded in-place-on-shared-input scenario")
@@ -34,7 +36,7 @@ func main() {
 	_ = fs.Parse(os.Args[2:])
 	switch os.Args[1] {
 	case "facts":
-		os.Exit(cmdFacts(*repo, *out))
+		os.Exit(cmdFacts(*repo, *out, *reachOut, *aliasOut))
 	case "corr":
 		os.Exit(cmdCorr(*repo, *seed, *n))
 	case "search":
